@@ -18,7 +18,7 @@ import hashlib, json, os, random, re, subprocess, sys, time
 
 VERIF = os.path.dirname(os.path.dirname(os.path.abspath(__file__)))
 REPO = os.environ.get("HGV_REPO", "/repo")
-BUILD = os.path.join(VERIF, ".build")
+BUILD = os.environ.get("HGV_BUILD_DIR", os.path.join(VERIF, ".build"))
 LEAN = os.path.join(VERIF, "lean")
 PY = sys.executable
 ALLOWED_AXIOMS = {"propext", "Classical.choice", "Quot.sound"}
